@@ -94,6 +94,9 @@ func (q *c13Query) Bid(ctx context.Context, in *mtypes.QueryBidRequest, opts ...
 	switch q.h.bidFound {
 	case "found":
 		return &mtypes.QueryBidResponse{Bid: mtypes.Bid{BidID: in.ID, State: mtypes.BidOpen, Price: q.h.price}}, nil
+	case "found-closed":
+		// the provider bid on this order in an earlier life and that bid was closed since
+		return &mtypes.QueryBidResponse{Bid: mtypes.Bid{BidID: in.ID, State: mtypes.BidClosed, Price: q.h.price}}, nil
 	case "notfound":
 		return nil, errors.New("rpc error: code = NotFound desc = bid not found: invalid request")
 	}
@@ -192,7 +195,7 @@ func TestVerif_C13(t *testing.T) {
 			h.price = sdk.NewInt64Coin("uakt", 1)
 		}
 		checkExisting := rapid.Bool().Draw(t, "checkForExistingBid")
-		h.bidFound = rapid.SampledFrom([]string{"notfound", "notfound", "found", "error"}).Draw(t, "existingBid")
+		h.bidFound = rapid.SampledFrom([]string{"notfound", "notfound", "found", "found-closed", "error"}).Draw(t, "existingBid")
 		timeout := time.Duration(0)
 		if rapid.IntRange(0, 3).Draw(t, "bidTimeout") == 0 {
 			timeout = 15 * time.Millisecond
@@ -429,6 +432,11 @@ func TestVerif_C13(t *testing.T) {
 		createCalls := idx("call:createbid")
 		if len(createCalls) > 1 {
 			fail("c13-two-bids", "%d create-bid transactions were submitted for one order", len(createCalls))
+		}
+		if len(createCalls) > 0 && checkExisting && (h.bidFound == "found" || h.bidFound == "found-closed") && len(idx("ret:bidquery:ok")) > 0 {
+			if bq := idx("ret:bidquery:ok"); bq[0] < createCalls[0] {
+				fail("c13-two-bids", "the chain already holds this provider's bid for the order (%s, learnt before bidding) and a second create-bid transaction was submitted", h.bidFound)
+			}
 		}
 		reserveOK := idx("ret:reserve:ok")
 		if len(createCalls) == 1 {
